@@ -1,2 +1,3 @@
 //! Shared proptest strategies.
 pub mod boxes;
+pub mod scenes;
